@@ -322,6 +322,9 @@ func c07Op(name string, g, mg int64) GOp {
 		return GOp{Kind: "Upload", Proto: "media", Bucket: "b", Name: "x", Data: []byte("AAA"), Meta: ct, Conds: map[string]string{"ifGenerationMatch": "0"}}
 	case "U0m":
 		return GOp{Kind: "Upload", Proto: "multipart", Bucket: "b", Name: "x", Data: []byte("BB"), Meta: gcs.ObjMeta{ContentType: "text/b", Metadata: map[string]string{"who": "b"}}, Conds: map[string]string{"ifGenerationMatch": "0"}}
+	case "U0d":
+		// create-if-absent by a client that declares the digest of its content; several clients send the very same bytes
+		return GOp{Kind: "Upload", Proto: "multipart", Bucket: "b", Name: "x", Data: []byte("DUP"), Meta: gcs.ObjMeta{ContentType: "text/dup", Md5Hash: gcs.MD5b64([]byte("DUP"))}, Conds: map[string]string{"ifGenerationMatch": "0"}}
 	case "Ug":
 		return GOp{Kind: "Upload", Proto: "media", Bucket: "b", Name: "x", Data: []byte("CCCC"), Meta: gcs.ObjMeta{ContentType: "text/c"}, Conds: map[string]string{"ifGenerationMatch": gs}}
 	case "Ugr":
@@ -532,7 +535,7 @@ func replayC07(c *fw.Ctx, raw json.RawMessage) (string, string) {
 
 func runC07(c *fw.Ctx) {
 	var scen []c07Param
-	absentOps := []string{"U0", "U0m", "C0", "CPto", "CPxto", "R", "M", "D"}
+	absentOps := []string{"U0", "U0m", "U0d", "C0", "CPto", "CPxto", "R", "M", "D"}
 	presentOps := []string{"Ug", "Ugr", "U", "Pm", "Pm2", "P", "Dg", "D", "Cg", "CPto", "CPfrom", "CPxfrom", "CPxto", "Cfrom", "Cfromg", "R", "M"}
 	for _, store := range []string{"mem", "file"} {
 		for i := range absentOps {
@@ -554,6 +557,7 @@ func runC07(c *fw.Ctx) {
 		// triples and two-request threads
 		scen = append(scen,
 			c07Param{Store: store, Present: false, Threads: [][]string{{"U0"}, {"U0m"}, {"C0"}}},
+			c07Param{Store: store, Present: false, Threads: [][]string{{"U0d"}, {"U0d"}, {"U0d"}}},
 			c07Param{Store: store, Present: true, Threads: [][]string{{"Ug"}, {"Ugr"}, {"Dg"}}},
 			c07Param{Store: store, Present: true, Threads: [][]string{{"Pm"}, {"Pm2"}, {"M"}}},
 			c07Param{Store: store, Present: true, Threads: [][]string{{"Ug"}, {"Pm"}, {"R"}}},
